@@ -224,7 +224,12 @@ class App(object):
         if kind == 'send_text':
             ws.send_text(op['text'], **kw)
         elif kind == 'send_binary':
-            data = bytes.fromhex(op['hex'])
+            if 'fill' in op:
+                # compact form for payloads of megabytes: [head hex, n, byte]
+                h, n, b = op['fill']
+                data = bytes.fromhex(h) + bytes([b]) * n
+            else:
+                data = bytes.fromhex(op['hex'])
             ws.send_binary(data, **kw)
         elif kind == 'send_ping':
             if 'hex' in op:
